@@ -33,6 +33,7 @@ ASSUMPTIONS = ['threaded client runs under the FIFO schedule for the order '
                'a JSON literal comes back re-serialised); the literal null is '
                'not used as PING data']
 REQUIRED = ['pong_echo', 'handshake_extras', 'sends_from_connect_handler',
+            'caller_ws_timeout',
             'downstream_exactly_once',
             'upstream_exactly_once',
             'binary_channel', 'url_oracle', 'upgrade_conduct',
@@ -93,15 +94,22 @@ def run_conversation(rec, case):
         rec.count('handshake_extras')
     plain = kind == 'A' and rng.random() < 0.3
     legacy = rng.random() < 0.2
+    extra = {}
+    if rng.random() < 0.25:
+        # a connection time-out of the caller's choosing for the WebSocket:
+        # it must not change how silence is detected afterwards
+        extra['websocket_extra_options'] = {
+            'timeout': rng.choice([0.25, 30])}
+        rec.count('caller_ws_timeout')
     w = cli.make_world(kind, script=script,
                        policy='random' if sched_seed else 'fifo',
                        seed=sched_seed, yield_prob=0.3 if sched_seed else 0.0,
                        request_timeout=5, plain_handlers=plain,
-                       legacy_disconnect=legacy)
-    desc = 'client=%s%s%s transport=%s probe=%s extras=%d' % (
+                       legacy_disconnect=legacy, **extra)
+    desc = 'client=%s%s%s%s transport=%s probe=%s extras=%d' % (
         'Client' if kind == 'T' else 'AsyncClient',
         ' plain-handlers' if plain else '', ' legacy-disconnect' if legacy
-        else '', transport, probe, len(down0))
+        else '', ' %r' % extra if extra else '', transport, probe, len(down0))
     steps = []
 
     def V(key, msg):
